@@ -20,6 +20,7 @@ Three parts:
 from __future__ import annotations
 
 import ast
+import itertools
 import json
 import pathlib
 import re
@@ -124,15 +125,7 @@ def gen_Xsd(repo: pathlib.Path) -> str:
     if not m:
         raise ExtractError(f"_ESCAPE_BACKSLASH_X_RE has an unknown shape: {rx!r}")
     cls_x = _class_ranges(m.group(1))
-    rxu = _regex_source(mod, "_ESCAPE_BACKSLASH_X_U_U_RE")
-    m = re.fullmatch(r"\(\\\\\\\\\|\\\\x\(\[([^\]]*)\]\{2\}\)\|\\\\u\(\[([^\]]*)\]\{4\}\)\|\\\\U\(\[([^\]]*)\]\{8\}\)\)", rxu)
-    if not m:
-        raise ExtractError(f"_ESCAPE_BACKSLASH_X_U_U_RE has an unknown shape: {rxu!r}")
-    if not (m.group(1) == m.group(2) == m.group(3)):
-        raise ExtractError("the three character classes of _ESCAPE_BACKSLASH_X_U_U_RE differ")
-    cls_xuu = _class_ranges(m.group(1))
-
-    for fname in ("_undo_escaping_backslash_x_in_pattern", "_undo_escaping_backslash_x_u_and_U_in_pattern"):
+    for fname in ("_undo_escaping_backslash_x_in_pattern",):
         fn = _func(mod, fname)
         skips = [
             n for n in ast.walk(fn)
@@ -141,6 +134,44 @@ def gen_Xsd(repo: pathlib.Path) -> str:
         ]
         if len(skips) != 1:
             raise ExtractError(f"{fname} does not skip the escaped backslash with a `continue`")
+
+    # the preparation of the patterns for greenery (repair of C13-F1 / C14-F1 and of the anchors-as-characters defect)
+    gcls = _class(mod, "_GreeneryRenderer")
+    if not (len(gcls.bases) == 1 and isinstance(gcls.bases[0], ast.Name) and gcls.bases[0].id == "_XsdRenderer"):
+        raise ExtractError("_GreeneryRenderer does not derive from _XsdRenderer")
+    glit = _dict_of(gcls, "_ESCAPING_IN_CHARACTER_LITERALS")
+    grng = _dict_of(gcls, "_ESCAPING_IN_RANGE")
+    goverridden = sorted(n.name for n in gcls.body if isinstance(n, ast.FunctionDef))
+    if goverridden != ["char_to_str_and_escape_or_encode_if_necessary", "transform_char_set"]:
+        raise ExtractError(f"_GreeneryRenderer overrides {goverridden}, the model knows two overrides")
+    gsteps = [c for c in _calls_in_order(_func(mod, "_render_pattern_for_greenery")) if not c.startswith("?.") and c not in ("isinstance", "ord")]
+    # in _translate_to_simple_type: every pattern of the intersection is prepared by _render_pattern_for_greenery, nothing else
+    # is handed to greenery.parse, and the text of the intersection goes through the escaping of ^/$ into _translate_pattern
+    tfn = _func(mod, "_translate_to_simple_type")
+    gparse_args = [
+        n.args[0] for n in ast.walk(tfn)
+        if isinstance(n, ast.Call) and isinstance(n.func, ast.Attribute) and n.func.attr == "parse"
+        and isinstance(n.func.value, ast.Name) and n.func.value.id == "greenery"
+    ]
+    if len(gparse_args) != 1 or not (isinstance(gparse_args[0], ast.Name) and gparse_args[0].id == "translated_for_greenery"):
+        raise ExtractError("_translate_to_simple_type: greenery.parse is not called once on `translated_for_greenery`")
+    prepared = [
+        n for n in ast.walk(tfn)
+        if isinstance(n, ast.Assign) and isinstance(n.value, ast.Call) and isinstance(n.value.func, ast.Name)
+        and n.value.func.id == "_render_pattern_for_greenery"
+        and any(isinstance(e, ast.Name) and e.id == "translated_for_greenery" for t in n.targets for e in ast.walk(t))
+    ]
+    if len(prepared) != 1:
+        raise ExtractError("_translate_to_simple_type: `translated_for_greenery` is not the result of _render_pattern_for_greenery")
+    merged = [
+        n for n in ast.walk(tfn)
+        if isinstance(n, ast.Call) and isinstance(n.func, ast.Name) and n.func.id == "_translate_pattern" and len(n.args) == 1
+        and isinstance(n.args[0], ast.Call) and isinstance(n.args[0].func, ast.Name)
+        and n.args[0].func.id == "_escape_carets_and_dollars_rendered_by_greenery"
+        and ast.unparse(n.args[0].args[0]) == "str(merger)"
+    ]
+    if len(merged) != 1:
+        raise ExtractError("_translate_to_simple_type: the intersection is not translated as _translate_pattern(_escape_carets_and_dollars_rendered_by_greenery(str(merger)))")
 
     steps = [c for c in _calls_in_order(_func(mod, "_translate_pattern")) if not c.startswith("?.") and c not in ("isinstance", "ord")]
 
@@ -186,8 +217,12 @@ def gen_Xsd(repo: pathlib.Path) -> str:
         + f"def xsdRange : List (Nat × Text) := {table(rng)}\n"
         + "/-- the character class of `_ESCAPE_BACKSLASH_X_RE` as written (inclusive ranges) -/\n"
         + f"def hexClassX : List (Nat × Nat) := {ranges(cls_x)}\n"
-        + "/-- the character class of `_ESCAPE_BACKSLASH_X_U_U_RE` as written -/\n"
-        + f"def hexClassXuU : List (Nat × Nat) := {ranges(cls_xuu)}\n"
+        + "/-- `_GreeneryRenderer._ESCAPING_IN_CHARACTER_LITERALS` -/\n"
+        + f"def grnLiteral : List (Nat × Text) := {table(glit)}\n"
+        + "/-- `_GreeneryRenderer._ESCAPING_IN_RANGE` -/\n"
+        + f"def grnRange : List (Nat × Text) := {table(grng)}\n"
+        + "/-- the calls of `_render_pattern_for_greenery` in source order -/\n"
+        + f"def greenerySteps : List String := {strs(gsteps)}\n"
         + "/-- the calls of `_translate_pattern` in source order -/\n"
         + f"def translateSteps : List String := {strs(steps)}\n"
         + "/-- `_PRIMITIVE_MAP`: (primitive type, XSD type) -/\n"
@@ -369,11 +404,29 @@ def impl_translate(p: str) -> str:
 def impl_undo(which: str, p: str) -> str:
     from aas_core_codegen.xsd import main as xsd_main
 
-    fn = xsd_main._undo_escaping_backslash_x_in_pattern if which == "undox" else xsd_main._undo_escaping_backslash_x_u_and_U_in_pattern
+    if which == "greenery":
+        return impl_greenery(p)
     try:
+        fn = xsd_main._undo_escaping_backslash_x_in_pattern if which == "undox" else xsd_main._escape_carets_and_dollars_rendered_by_greenery
         return "ok " + enc_text(fn(p))
     except BaseException as e:  # noqa
         return "crash " + ("ValueError" if isinstance(e, (ValueError, OverflowError)) else type(e).__name__)
+
+
+def impl_greenery(p: str) -> str:
+    """Canonical outcome of ``_render_pattern_for_greenery``: ``ok <text>`` | ``err parse`` | ``crash:<Type>``."""
+    from aas_core_codegen.xsd import main as xsd_main
+
+    try:
+        text, error = xsd_main._render_pattern_for_greenery(p)
+    except BaseException as e:  # noqa
+        return crash_name(e)
+    if error is None:
+        return "ok " + enc_text(text)
+    lines = error.split("\n")
+    if len(lines) >= 3 and lines[-1].endswith("^"):
+        return "err parse"
+    return "err other " + error[:60]
 
 
 def is_xml_string(s: str) -> bool:
@@ -706,6 +759,14 @@ def pattern_stage(ctx: Ctx, pats: List[Tuple[str, str]], with_model: bool) -> No
             ctx.traces_validated += 1
             if got != want:
                 ctx.disagree("translate/" + stream, {"pattern": p}, got, want)
+        # --- model: the preparation of a pattern for the external intersection
+        answers = ctx.model(["greenery " + enc_text(p) for p, _ in pats])
+        for (p, stream), want in zip(pats, answers):
+            got = impl_greenery(p)
+            ctx.traces_validated += 1
+            ctx.hit("greenery=" + got.split(" ")[0])
+            if got != want:
+                ctx.disagree("greenery/" + stream, {"pattern": p, "function": "greenery"}, got, want)
     translated = [(i, dec_text(o[3:])) for i, o in enumerate(outs) if o.startswith("ok ")]
     texts = [t for _, t in translated]
     ty10 = load_facets(texts, "1.0")
@@ -797,15 +858,191 @@ def undo_stage(ctx: Ctx) -> None:
     items = list(seeds)
     for _ in range(ctx.n(600, 20000)):
         items.append("".join(ctx.rng.choice(alphabet) for _ in range(ctx.rng.randint(0, 12))))
-    for which in ("undox", "undoxuu"):
-        got = [impl_undo(which, s) for s in items]
-        want = ctx.model([f"{which} {enc_text(s)}" for s in items])
-        for s, g, w in zip(items, got, want):
-            ctx.count((which, s), nontrivial="\\" in s, stream=which)
+    # the scanner that escapes ^/$ in what greenery renders: texts in greenery's dialect (sets, escapes, ^/$ inside and outside)
+    esc_seeds = ["", "a$b", "^", "$", "a^b$c", "[$^]", "[^$]^", "\\^", "\\$", "\\\\$", "[\\]$]$", "[a\\]^", "($*[^$x])*$+", "a\\", "[", "[a", "]$", "a]^[b]$", "\\[$\\]^",
+                 "[^\\^]^", "\\x24$", "(\\$|^){2,}", "[\\\\]$", "[[]$", "\\[a]^"]
+    esc_alphabet = ["\\", "^", "$", "[", "]", "a", "(", ")", "*", "-", "x"]
+    esc_items = list(esc_seeds)
+    for _ in range(ctx.n(600, 20000)):
+        esc_items.append("".join(ctx.rng.choice(esc_alphabet) for _ in range(ctx.rng.randint(0, 12))))
+    for which, its in (("undox", items), ("escanchors", esc_items)):
+        got = [impl_undo(which, s) for s in its]
+        want = ctx.model([f"{which} {enc_text(s)}" for s in its])
+        for s, g, w in zip(its, got, want):
+            ctx.count((which, s), nontrivial="\\" in s or "^" in s or "$" in s, stream=which)
             ctx.traces_validated += 1
             ctx.hit(f"{which}=" + g.split(" ")[0])
             if g != w:
-                ctx.disagree(which, {"text": s}, g, w)
+                ctx.disagree(which, {"text": s, "function": which}, g, w)
+
+
+# --------------------------------------------------------------------------- two or more patterns on one value (pattern level)
+
+#: anchored patterns whose pairwise intersections exercise the hand-over to greenery: special characters written as
+#: ``\\xHH``/``\\uHHHH`` (former findings C13-F1 / C14-F1), and the characters ``^``/``$`` accepted somewhere — in ``.``, in a
+#: complemented set, in a set (the anchors were handed over as characters; second repair)
+INTERSECTION_POOL = [
+    "^a\\x2ab$", "^[a-z*]+$", "^a\\u002bb$", "^[a-b*+]+$", "^\\x28a\\x29$", "^[()a]+$", "^a\\x7b2\\x7d$", "^[a{}2]+$", "^a\\x3fb?$", "^[?ab]+$",
+    "^[\\x5ea]+$", "^[a-z]+$", "^a\\.b$", "^[a-z.]+$", "^[-a]+$", "^a\\x2db$", "^[\\x2da]b$", "^[a\\x5d]+$", "^a\\x5cb$", "^[\\x5c-\\x5da]+$",
+    "^a.b$", "^.*$", "^.+$", "^.{2}$", "^[^x]*$", "^[^x]+$", "^[a-z$]+$", "^a[$]b$", "^[$]+$", "^.*a$", "^a.*$", "^[^a]$", "^(a|.)b$", "^.?x?$",
+    "^[a\\^]+$", "^a[\\^]b$", "^[ -~]+$", "^[^ ]*$", "^(.b|a.)$", "^a\\x24$", "^\\x5ea$", "^a\\$b?$", "^\\^.$", "^[$a]+$", "^a\\U0001F600$", "^[a\\U0001F600]+$",
+]
+
+_INTERSECTION_ALPHABET = ["a", "b", "x", ".", "$", "^", "*", "+", "-", "]", "\\", "(", "2", " ", "\U0001f600"]
+
+
+def impl_intersect(patterns: Sequence[str]) -> str:
+    """Canonical outcome of ``_translate_to_simple_type`` on a string value with the given patterns: ``ok <XSD pattern>`` | ``err <text>`` | ``crash:<Type>``."""
+    from aas_core_codegen import infer_for_schema, intermediate
+    from aas_core_codegen.xsd import main as xsd_main
+
+    try:
+        constraints = infer_for_schema.Constraints(patterns=[infer_for_schema.PatternConstraint(pattern=p) for p in patterns])
+        simple_type, error = xsd_main._translate_to_simple_type(primitive_type=intermediate.PrimitiveType.STR, constraints=constraints)
+    except BaseException as e:  # noqa
+        return crash_name(e)
+    if error is not None:
+        return "err " + error
+    assert simple_type is not None and simple_type.restriction is not None and simple_type.restriction.pattern is not None
+    return "ok " + enc_text(simple_type.restriction.pattern)
+
+
+def intersection_shape(patterns: Sequence[str]) -> str:
+    from harness.props import c14_models
+
+    if c14_models.escaped_metacharacter_intersected(patterns):
+        return "escaped-metacharacter"
+    if any(re.search(r"\.|\[\^|\$(?!$)|(?<!^)\^", re.sub(r"\\\\.", "", p)) for p in patterns):
+        return "caret-or-dollar-accepted"
+    return "other"
+
+
+def _intersection_strings(patterns: Sequence[str], extra: Sequence[str]) -> List[str]:
+    present = [c for c in _INTERSECTION_ALPHABET if any(c in p for p in patterns)]
+    alphabet = (["a", "b", "$", "^"] + [c for c in present if c not in "ab$^"])[:7]
+    out = list(extra)
+    for n in range(0, 4):
+        for t in itertools.product(alphabet, repeat=n):
+            out.append("".join(t))
+    return [w for w in dict.fromkeys(out) if is_xml_string(w)]
+
+
+def judge_intersection(ctx: Ctx, patterns: Sequence[str], stream: str, extra: Sequence[str] = (), accepts_invalid: bool = False) -> Dict[str, Any]:
+    """
+    The statement on one value with two or more patterns, decided at the level of the facet: the XSD pattern the generator writes
+    accepts every sampled XML string without line breaks that all the patterns match (C13; ``accepts_invalid``: and rejects the
+    others, C14).  Judges: Python's ``re`` for the meta-model patterns, xmlschema (both versions) and the direct conversion of the
+    XSD pattern to Python for the facet.
+    """
+    prop = "C14" if accepts_invalid else "C13"
+    res: Dict[str, Any] = {"impl": impl_intersect(patterns)}
+    ctx.count(("intersection", tuple(patterns)), nontrivial=True, stream="intersection/" + stream)
+    out = res["impl"]
+    inp = {"intersect": list(patterns)}
+    if out.startswith("crash"):
+        ctx.fail(inp, f"_translate_to_simple_type raises {out} on the patterns {list(patterns)!r}", f"{prop}:intersection-raises:{out.split(':')[-1]}")
+        return res
+    if not out.startswith("ok "):
+        klass = _reason_class_of_refusal(out)
+        ctx.hit("intersection=refused:" + klass)
+        res["refused"] = klass
+        return res
+    t = dec_text(out[3:])
+    res["xsd_pattern"] = t
+    ctx.hit("intersection=translated")
+    try:
+        cps = [re.compile(p) for p in patterns]
+    except BaseException:  # noqa
+        return res
+    facets: List[Tuple[str, Any]] = [("re on the converted XSD pattern", PyFacet(t))]
+    if not xmlschema_blind(t):
+        for ver in ("1.0", "1.1"):
+            ty = load_facets([t], ver)[0]
+            if isinstance(ty, str):
+                ctx.fail(inp, f"the schema with the intersected pattern {t!r} does not load as XSD {ver}: {ty}", f"{prop}:intersection-schema-invalid:" + ty.split(":")[0])
+                return res
+            facets.append(("xmlschema " + ver, ty))
+    if facets[0][1].rx is None:
+        ctx.fail(inp, f"the intersected XSD pattern {t!r} is not readable", f"{prop}:intersection-schema-invalid:unreadable")
+        return res
+    shape = intersection_shape(patterns)
+    for w in _intersection_strings(patterns, extra):
+        want = all(cp.match(w) is not None for cp in cps)
+        for name, ty in facets:
+            got = facet_valid(ty, w)
+            if got is None:
+                continue
+            if want and not got and not accepts_invalid:
+                ctx.fail({**inp, "text": w}, f"{w!r} matches all of {list(patterns)!r} but the XSD pattern {t!r} rejects it ({name})", f"C13:intersection-rejects-valid:{shape}")
+                return res
+            if got and not want and accepts_invalid:
+                broken = [p for p, cp in zip(patterns, cps) if cp.match(w) is None]
+                ctx.fail({**inp, "text": w}, f"{w!r} breaks {broken!r} but the XSD pattern {t!r} written for {list(patterns)!r} accepts it ({name})", f"C14:intersection-accepts-invalid:{shape}")
+                return res
+    ctx.hit("intersection=agrees:" + shape)
+    return res
+
+
+def _reason_class_of_refusal(out: str) -> str:
+    for key, name in (("greenery failed to parse", "greenery-parse"), ("greenery failed to intersect", "greenery-intersect"), ("Unexpected escaping", "unexpected-escaping"), ("Expected a closing bracket", "empty-intersection"),
+                      ("Unexpected quantifier after the symbol", "quantified-anchor"), ("not allowed in XML", "non-xml-character"), ("escaping at the moment", "class-escape")):
+        if key in out:
+            return name
+    return "other"
+
+
+def _anchors(tree: Any) -> Tuple[int, int]:
+    """(start anchors, end anchors) anywhere in the tree: the front end accepts a pattern with exactly one of each (first and last)."""
+    from aas_core_codegen.parse import retree
+
+    class V(retree.PassThroughVisitor):  # type: ignore[misc]
+        def __init__(self) -> None:
+            self.n = [0, 0]
+
+        def visit_symbol(self, node: Any) -> None:
+            if node.kind is retree.SymbolKind.START:
+                self.n[0] += 1
+            elif node.kind is retree.SymbolKind.END:
+                self.n[1] += 1
+
+    v = V()
+    v.visit(tree)
+    return v.n[0], v.n[1]
+
+
+def intersection_stage(ctx: Ctx, accepts_invalid: bool = False) -> None:
+    for prop in ("C13", "C14"):
+        for c in corpus(prop):
+            if "intersect" in c:
+                judge_intersection(ctx, c["intersect"], "corpus", extra=c.get("texts", []), accepts_invalid=accepts_invalid)
+            elif "model_patterns" in c:
+                judge_intersection(ctx, c["model_patterns"], "corpus", extra=[w for w in (c.get("valid"), c.get("mutant")) if isinstance(w, str)], accepts_invalid=accepts_invalid)
+    pool = INTERSECTION_POOL
+    pairs = list(itertools.combinations(pool, 2))
+    if ctx.tier == "quick":
+        # a seed-independent third of the pairs (every pattern meets every third other one), all of them in the thorough tier
+        pairs = [pr for k, pr in enumerate(pairs) if k % 3 == 0]
+    for pr in pairs:
+        judge_intersection(ctx, pr, "enumerated", accepts_invalid=accepts_invalid)
+    for tr in (("^.*$", "^[ -~]+$", "^[^x]*$"), ("^a\\x2ab?$", "^[a-z*]+$", "^.{2,3}$"), ("^[$a]+$", "^.+$", "^[^b]*$")):
+        judge_intersection(ctx, tr, "enumerated", accepts_invalid=accepts_invalid)
+    rnd = [p for p, _ in random_patterns(ctx, ctx.n(60, 900))]
+    acc = []
+    from aas_core_codegen.parse import retree
+
+    for p in rnd:
+        try:
+            t, e = retree.parse([p])
+        except BaseException:  # noqa
+            continue
+        # greenery builds automata: keep the repetition counts small (a{1234} & b{17,100} is minutes of work, not a verdict)
+        if t is not None and _accepted_shape(t) and _anchors(t) == (1, 1) and len(p) < 40 and re.search(r"[0-9]{2}", p) is None:
+            acc.append(p)
+    for _ in range(ctx.n(40, 600)):
+        if len(acc) < 2:
+            break
+        k = 2 if ctx.rng.random() < 0.85 else 3
+        judge_intersection(ctx, ctx.rng.sample(acc + pool, k), "random", accepts_invalid=accepts_invalid)
 
 
 # --------------------------------------------------------------------------- meta-model level
@@ -1336,6 +1573,7 @@ def correspond(ctx: Ctx) -> None:
 def oracle(ctx: Ctx) -> None:
     if not ctx.driver_ok or ctx.searching:
         pattern_stage(ctx, _patterns(ctx), False)
+    intersection_stage(ctx)
     enumerated_stage(ctx, valid=True, mutants=False)
     close_families(ctx)
     model_stage(ctx, ctx.n(22, 300))
@@ -1345,7 +1583,13 @@ def replay(ctx: Ctx, data: Dict[str, Any]) -> Any:
     inp = data["failure"]["input"] if "failure" in data else data
     res: Dict[str, Any] = {}
     before = len(ctx.failures)
-    if "pattern" in inp:
+    if "intersect" in inp:
+        res.update(judge_intersection(ctx, inp["intersect"], "replay", extra=[inp["text"]] if "text" in inp else []))
+    elif "pattern" in inp and inp.get("function") == "greenery":
+        res["impl"] = impl_greenery(inp["pattern"])
+        if ctx.driver_ok:
+            res["model"] = ctx.model(["greenery " + enc_text(inp["pattern"])])[0]
+    elif "pattern" in inp:
         p = inp["pattern"]
         res["impl"] = impl_translate(p)
         if res["impl"].startswith("ok "):
